@@ -226,7 +226,7 @@ def gen_case(rng, ctx, kernel=None):
     npix, nt = int(rng.integers(1, 7)), int(rng.integers(1, 40))
     data_name = names[0]
     r = rng.random()
-    cls = 'float32' if r < 0.3 else ('int64' if r < 0.4 and data_name == 'tof' else 'float64')
+    cls = 'float32' if r < 0.3 else ('int64' if r < 0.4 else 'float64')
     kw, units, dtypes = {}, [], []
     mags = []
     for n in names:
@@ -261,9 +261,14 @@ def gen_case(rng, ctx, kernel=None):
             dt = cls
         else:
             rr = rng.random()
-            dt = 'float32' if rr < 0.15 else 'float64'
+            dt = 'float32' if rr < 0.15 else ('int64' if rr < 0.27 else 'float64')
+            if dt == 'int64':
+                ctx.hit('integer geometry operand')
         # magnitudes
-        if n == 'two_theta':
+        if n == 'two_theta' and dt == 'int64':
+            # whole degrees 1..180 or whole radians 1..3: exact integers in the unit given
+            v = (rng.integers(1, 181, size=n_el) if unit == 'deg' else rng.integers(1, 4, size=n_el)).astype(float)
+        elif n == 'two_theta':
             v = _angles(rng, n_el, ctx)
             if dt == 'float32':
                 # keep float32 angles away from the forced double-precision classes
@@ -290,7 +295,6 @@ def gen_case(rng, ctx, kernel=None):
                     unit = ['1/angstrom', '1/nm'][rng.integers(0, 2)]
                     s = _draw_si(rng, n_el, 1e8, 1e12)
             elif dt == 'int64':
-                unit = TIME_UNITS[rng.integers(0, len(TIME_UNITS))]
                 s = None
             else:
                 s = _draw_si(rng, n_el)
@@ -456,7 +460,8 @@ def requirements(tier):
     ev = {k: 20 for k in OPERANDS}
     ev.update({'route.Q*d=2pi': 20, 'route.lambda->E->lambda': 20})
     return {'events': ev,
-            'forced': ['two_theta<1e-9', 'two_theta within 1e-12 of pi', 'two_theta == pi']}
+            'forced': ['two_theta<1e-9', 'two_theta within 1e-12 of pi', 'two_theta == pi',
+                       'integer geometry operand']}
 
 
 def run(shard, ctx):
